@@ -1,16 +1,17 @@
 #!/usr/bin/env python3
-"""split_dump.py <agent nv_dump_more.h> <name>: store the agent's translator section as harness/nv_dump_<name>.h
-(its dump_more() renamed dump_more_<name>()) and register it in harness/nv_dump_more.h"""
+"""split_dump.py <agent nv_dump_more.h> <name>: store the agent's translator section as its own translation unit
+harness/nv_dump_<name>.cpp (its dump_more() renamed dump_more_<name>(), non-static) and register it in harness/nv_dump_more.h"""
 import re, sys
 src, name = sys.argv[1], sys.argv[2]
 s = open(src).read()
-s = s.replace("NV_DUMP_MORE_H", "NV_DUMP_%s_H" % name.upper())
-s = re.sub(r"static void dump_more\(\)", "static void dump_more_%s()" % name, s)
-open("/verif/harness/nv_dump_%s.h" % name, "w").write(s)
+s = re.sub(r"#ifndef NV_DUMP_MORE_H\n#define NV_DUMP_MORE_H\n", "", s)
+s = re.sub(r"\n#endif\s*$", "\n", s)
+s = re.sub(r"static void dump_more\(\)", "void dump_more_%s()" % name, s)
+s = '// Translator section "%s" (own translation unit).\n#include <stdio.h>\n#include <stdlib.h>\n#include <string.h>\n#include <stdint.h>\n' % name + s
+open("/verif/harness/nv_dump_%s.cpp" % name, "w").write(s)
 p = "/verif/harness/nv_dump_more.h"
 m = open(p).read()
-inc = '#include "nv_dump_%s.h"\n' % name
-if inc not in m:
-    m = m.replace("static void dump_more()\n{\n", inc + "static void dump_more()\n{\n  dump_more_%s();\n" % name)
+if "dump_more_%s();" % name not in m:
+    m = m.replace("static void dump_more()\n{\n", "void dump_more_%s();\nstatic void dump_more()\n{\n  dump_more_%s();\n" % (name, name))
     open(p, "w").write(m)
 print(open(p).read())
